@@ -582,3 +582,202 @@ def sweep_findings(case, max_findings=4):
                                 {'chain': ci})
                             break
     return out, nsweeps
+
+
+# --------------------------------------------------------------------------
+# C06: partitions and clears on the real code
+# --------------------------------------------------------------------------
+
+def _hist(sampler, params):
+    """Retained history of every chain and level as plain tuples (bit-exact via float.hex)."""
+    out = []
+    for ch in sampler.chains:
+        lv = []
+        for l in I.levels_of(ch):
+            n = len(l)
+            rows = []
+            if l.iteration > 0 and n > 0:
+                pos, sts, acc, blobs = l.positions, l.stats, l.acceptance, l.blobs
+                for i in range(n):
+                    rows.append((tuple(_hx(pos[i][p]) for p in params), _hx(sts[i]['logl']), _hx(sts[i]['logp']),
+                                 _hx(acc[i]['acceptance_ratio']), bool(acc[i]['accepted']),
+                                 None if blobs is None else tuple(_hx(blobs[i][k]) for k in blobs.dtype.names)))
+            lv.append(rows)
+        sw = []
+        if isinstance(ch, ParallelTemperedChain) and ch.ntemps > 1:
+            try:
+                ts, ta = ch.temperature_swaps, ch.temperature_acceptance
+                for r in range(ts.shape[-1]):
+                    sw.append((tuple(int(x) for x in ts[:, r]), tuple(_hx(x) for x in ta[:, r])))
+            except ValueError:
+                pass
+        out.append((lv, sw))
+    return out
+
+
+def _hx(v):
+    try:
+        f = float(v)
+    except (TypeError, ValueError):
+        return repr(v)
+    return 'nan' if math.isnan(f) else f.hex()
+
+
+def partition_findings(case, n, parts, clears, max_findings=3):
+    """case: configuration (ops ignored). parts: run lengths adding up to n. clears: set of
+    indices k meaning `clear()` after the k-th run. Compares with one uninterrupted run(n)."""
+    out = []
+    params = [p[0] for p in case.params]
+
+    def bad(key, text, extra=None):
+        if len(out) < max_findings and not any(k == key for k, _, _ in out):
+            out.append((key, text, {'case': dict(case.describe(), ops=[]), 'n': n, 'parts': list(parts),
+                                    'clears': sorted(clears), 'detail': extra}))
+
+    mA, mB = plumbing.make_model(case), plumbing.make_model(case)
+    A = plumbing.build_sampler(case, case.seed, mA)
+    A.start_position = plumbing.start_positions(case)
+    try:
+        A.run(n)
+    except Exception as e:
+        bad('reference-run-raises', 'the uninterrupted run raised %r' % (e,))
+        return out
+    ref = _hist(A, params)
+    B = plumbing.build_sampler(case, case.seed, mB)
+    B.start_position = plumbing.start_positions(case)
+    acc = [([[] for _ in lv], []) for lv, _ in ref]
+    s = case.swap_interval
+    it = 0
+    offmult = False
+
+    def collect():
+        h = _hist(B, params)
+        for ci, (lv, sw) in enumerate(h):
+            for t, rows in enumerate(lv):
+                acc[ci][0][t].extend(rows)
+            acc[ci][1].extend(sw)
+    for k, m in enumerate(parts):
+        try:
+            B.run(m)
+        except Exception as e:
+            key = 'annealer-crash-after-offmultiple-clear' if (offmult and case.dynamic and isinstance(e, IndexError)) \
+                else 'partitioned-run-raises'
+            bad(key, 'run(%d) of the partitioned run raised %r (uninterrupted run is fine)' % (m, e))
+            return out
+        it += m
+        if k in clears:
+            collect()
+            B.clear()
+            if it % s != 0 and len(case.betas) > 1:
+                offmult = True
+    collect()
+    for ci in range(len(ref)):
+        for t in range(len(ref[ci][0])):
+            if acc[ci][0][t] != ref[ci][0][t]:
+                key = 'annealer-stale-row-after-offmultiple-clear' if (offmult and case.dynamic) else 'trajectory-differs'
+                j = next((i for i, (x, y) in enumerate(zip(acc[ci][0][t], ref[ci][0][t])) if x != y),
+                         min(len(acc[ci][0][t]), len(ref[ci][0][t])))
+                bad(key, 'the concatenated history of the partitioned/cleared run differs from the uninterrupted run '
+                    '(chain %d level %d, first difference at iteration %d)' % (ci, t, j + 1))
+        if acc[ci][1] != ref[ci][1]:
+            key = 'swap-history-row-missing-after-offmultiple-clear' if (offmult and len(acc[ci][1]) < len(ref[ci][1])) \
+                else 'swap-history-differs'
+            bad(key, 'the concatenated swap history of the partitioned/cleared run has %d rows, the uninterrupted run %d'
+                % (len(acc[ci][1]), len(ref[ci][1])))
+    for ca, cb in zip(A.chains, B.chains):
+        if ca.iteration != cb.iteration or len(cb) != cb.iteration - cb.lastclear:
+            bad('counters', 'iteration/len differ after the partitioned run')
+        for la, lb in zip(I.levels_of(ca), I.levels_of(cb)):
+            if not (_rec_equal(params, la.current_position, lb.current_position)
+                    and _eq(la.current_stats['logl'], lb.current_stats['logl'])):
+                bad('current', 'current position/stats differ after the partitioned run')
+    return out
+
+
+def compositions(n):
+    """All compositions of n into positive parts, plus variants with zeros inserted."""
+    if n == 0:
+        yield []
+        return
+    for first in range(1, n + 1):
+        for rest in compositions(n - first):
+            yield [first] + rest
+
+
+# --------------------------------------------------------------------------
+# C17: ladder coherence on the real code
+# --------------------------------------------------------------------------
+
+def ladder_findings(seed, full=False, max_findings=4):
+    from epsie.samplers import ParallelTemperedSampler
+    from epsie.chain.ptchain import DynamicalAnnealer
+    from epsie.proposals import Normal
+    rng = random.Random(seed)
+    out = []
+    nchecks = 0
+
+    def bad(key, text, extra=None):
+        if len(out) < max_findings and not any(k == key for k, _, _ in out):
+            out.append((key, text, {'detail': extra}))
+
+    class M:
+        def __call__(self, x):
+            return -math.floor(x * x * 8) / 16.0, 0.0
+    ncfg = 40 if full else 10
+    for _ in range(ncfg):
+        nt = rng.choice([2, 3, 4, 5, 6])
+        betas = sorted({1.0} | {rng.choice(plumbing.DYADIC_BETAS[1:]) for _ in range(nt - 1)}, reverse=True)
+        if rng.random() < 0.5 and len(betas) > 1:
+            betas[-1] = 0.0
+        given = list(betas)
+        rng.shuffle(given)
+        dyn = rng.random() < 0.6 and len(betas) >= 3 and all(b > 0 for b in betas[:-1])
+        tmax_prior = rng.random() < 0.6
+        ann = DynamicalAnnealer(tau=rng.choice([20, 50, 1000]), nu=rng.choice([2, 4, 10]), Tmax_prior=tmax_prior) \
+            if dyn else None
+        s = rng.choice([1, 2, 3])
+        cfg = {'given': given, 'dynamic': dyn, 'Tmax_prior': tmax_prior, 'swap_interval': s}
+        try:
+            smp = ParallelTemperedSampler(['x'], M(), rng.choice([1, 2]), numpy.array(given), swap_interval=s,
+                                          proposals=[Normal(['x'], cov=[0.5])], adaptive_annealer=ann,
+                                          seed=rng.randrange(1 << 20))
+        except Exception as e:
+            bad('construct-raises', 'constructing a PT sampler raised %r' % (e,), cfg)
+            continue
+        nt = len(betas)
+        smp.start_position = {'x': numpy.array([[rng.uniform(-1, 1) for _ in smp.chains] for _ in range(nt)])}
+        first = [numpy.array(ch.betas, dtype=float).copy() for ch in smp.chains]
+        for ch, f in zip(smp.chains, first):
+            want = sorted(given, reverse=True)
+            if dyn and tmax_prior:
+                want = want[:-1] + [0.0]
+            if list(f) != want:
+                bad('not-sorted', 'betas given as %s are held as %s' % (given, list(f)), cfg)
+        for it in range(1, (60 if full else 25) + 1):
+            smp.run(1)
+            rep = smp.betas
+            for ci, ch in enumerate(smp.chains):
+                nchecks += 1
+                lad = [float(b) for b in ch.betas]
+                lev = [float(l.beta) for l in ch.chains]
+                if lad != lev:
+                    bad('level-beta-differs-from-ladder', 'iteration %d: the ladder says %s but the levels sample at %s'
+                        % (it, lad, lev), cfg)
+                if [float(b) for b in rep[ci]] != lad:
+                    bad('sampler-betas', 'sampler.betas differs from the chain\'s ladder', cfg)
+                if not all(0.0 <= b <= 1.0 for b in lad):
+                    bad('out-of-range', 'a beta left [0,1]: %s' % lad, cfg)
+                if lad[0] != float(first[ci][0]) or lad[-1] != float(first[ci][-1]):
+                    bad('endpoints-moved', 'coldest/hottest beta changed: %s -> %s' % (list(first[ci]), lad), cfg)
+                if dyn and tmax_prior and not all(lad[i] > lad[i + 1] for i in range(len(lad) - 1)):
+                    bad('order-lost', 'the ladder is no longer strictly decreasing: %s' % lad, cfg)
+                if not dyn and lad != [float(b) for b in first[ci]]:
+                    bad('fixed-ladder-changed', 'a fixed ladder changed: %s' % lad, cfg)
+    # rejection of out-of-range betas
+    for bad_b in ([1.0, 1.5], [-0.1, 1.0]):
+        try:
+            ParallelTemperedSampler(['x'], M(), 1, numpy.array(bad_b), proposals=[Normal(['x'])], seed=1)
+            bad('out-of-range-accepted', 'betas %s were accepted' % bad_b)
+        except ValueError:
+            pass
+    return out, {'configurations': ncfg, 'ladder_checks': nchecks}
